@@ -993,34 +993,32 @@ type sbData struct {
 	values  []byte
 }
 
-// returns true if we set Block to blank 0 or some solid label
+// returns true if we set Block to blank 0 or some solid label.  A nil octant leaves its
+// portion of the receiving block unmodified, so it only agrees with a solid result if the
+// receiving block is already solid with the same label.
 func (b *Block) setBlank(octants [8]*Block) bool {
-	var ok bool
 	var lbl uint64
-	if octants[0] == nil {
-		ok = true // nil octants are solid label 0 block
-	} else if len(octants[0].Labels) == 1 {
-		lbl = octants[0].Labels[0]
-		ok = true
-	}
-	if ok {
-		for i := 1; i < 8; i++ {
-			if octants[i] == nil {
-				if lbl != 0 {
-					ok = false
-					break
-				}
-			} else if len(octants[i].Labels) != 1 || lbl != octants[i].Labels[0] {
-				ok = false
-				break
+	for i, oct := range octants {
+		var cur uint64
+		if oct == nil {
+			if len(b.Labels) > 1 {
+				return false
 			}
+			if len(b.Labels) == 1 {
+				cur = b.Labels[0]
+			}
+		} else if len(oct.Labels) == 1 {
+			cur = oct.Labels[0]
+		} else {
+			return false
 		}
-		if ok {
-			*b = *MakeSolidBlock(lbl, b.Size)
-			return true
+		if i > 0 && cur != lbl {
+			return false
 		}
+		lbl = cur
 	}
-	return false
+	*b = *MakeSolidBlock(lbl, b.Size)
+	return true
 }
 
 // DownresSlow is same as Downres() but uses simpler and more memory/compute-intensive
